@@ -666,6 +666,10 @@ fn utf8(out: &mut Vec<GSpec>) {
                 rules.push(RuleSpec::new("su1", 'A', "(!\"é\" ~ ANY)* ~ \"é\""));
                 rules.push(RuleSpec::new("su2", 'A', "\"a\" ~ (!(\"a€\") ~ ANY)* ~ ANY?"));
                 rules.push(RuleSpec::new("su3", 'N', "su0 ~ ANY"));
+                // a single delimiter of several characters, nothing after it that could hide where the skip stopped
+                rules.push(RuleSpec::new("su4", 'A', "(!\"a€\" ~ ANY)*"));
+                rules.push(RuleSpec::new("su5", 'A', "(!\"\\r\\n\" ~ ANY)* ~ \"\\r\"?"));
+                rules.push(RuleSpec::new("su6", 'A', "(!\"éa\" ~ ANY)* ~ \"é\""));
             }
             if name == "ws" && ci > 0 {
                 break;
@@ -1007,6 +1011,9 @@ fn sub(out: &mut Vec<GSpec>) {
         "(SOI | \"a\") ~ \"b\"",
         "ANY ~ ANY?",
         "\"ab\"{1,2}",
+        "(!\"ab\" ~ ANY)*",
+        "(!\"ab\" ~ ANY)* ~ \"a\"",
+        "(!\"aba\" ~ ANY)* ~ \"ab\"?",
     ];
     let mut rules = skip.clone();
     for (k, b) in bodies.iter().enumerate() {
